@@ -79,6 +79,8 @@ type treeRun struct {
 	res   []string
 	steps []string
 	used  []string
+	dimg  []string // per call: digest of every directory's bytes (time stamps masked)
+	nsp   []string // per call: create / mkdir of a new name in an existing directory: 1 = refused for lack of space, 0 = not; "-" otherwise
 	rep   *rawReport
 	bad   bool // the image stopped being readable: the case is dropped
 }
@@ -110,6 +112,16 @@ func (t *treeRun) do(tok string) string {
 	}
 	f := strings.Split(tok, ":")
 	fs := t.v.fs
+	// the ENOSPC characterisation (Props/C01 fat_tree_create_enospc_iff / _mkdir_) speaks of a new
+	// name in a directory that exists
+	applies := false
+	if f[0] == "c" || f[0] == "m" {
+		dir := ""
+		if i := strings.LastIndex(f[1], "/"); i >= 0 {
+			dir = f[1][:i]
+		}
+		applies = (dir == "" || t.isDir(dir)) && !t.exists(f[1])
+	}
 	err := safely(func() error {
 		switch f[0] {
 		case "m", "M":
@@ -155,12 +167,21 @@ func (t *treeRun) do(tok string) string {
 	cls := treeClass(err)
 	t.ops = append(t.ops, tok)
 	t.res = append(t.res, cls)
+	switch {
+	case !applies:
+		t.nsp = append(t.nsp, "-")
+	case cls == "enospc":
+		t.nsp = append(t.nsp, "1")
+	default:
+		t.nsp = append(t.nsp, "0")
+	}
 	t.rep = t.v.raw()
 	if t.rep.Vol == nil || t.rep.Root == nil || cls == "panic" {
 		t.bad = true
 		return cls
 	}
 	t.steps = append(t.steps, fmt.Sprint(digestStr(treeListing(t.rep, t.v.dev))))
+	t.dimg = append(t.dimg, fmt.Sprint(dirImagesDigest(t.rep, t.v.dev)))
 	used := 0
 	tb := t.v.base.VerifTable()
 	for i := uint32(2); i <= tb.MaxCluster(); i++ {
@@ -410,6 +431,7 @@ func (e *eng) corrTree(r *hx.Rng) {
 			entries0 := tableNonzero(tb)
 			rootChain := u32s(rep.Root.Chain)
 			rootBase := rootBaseSlots(v, rep)
+			rootPre := rootPreHex(v, rep)
 			t := &treeRun{v: v, rep: rep}
 			free := func() int {
 				f := 0
@@ -509,11 +531,15 @@ func (e *eng) corrTree(r *hx.Rng) {
 			final := treeListing(t.rep, v.dev)
 			c.Case(id, "fat.tree", kv("kind", cfg.Kind), kv("max", max), kv("lim", lim), kv("start", cfg.Start), kv("datastart", dataStart),
 				kv("bpc", bpc), kv("rootcap", rootCap), kv("rootbase", rootBase), kv("rootoff", rootDirOffset+cfg.Start),
-				"rootchain="+rootChain, "entries="+entries0, "ops="+strings.Join(t.ops, ","), "hyp=1")
+				"rootchain="+rootChain, "entries="+entries0, "rootpre="+rootPre, kv("rootpar", rootDotDot(cfg.Kind)),
+				"ops="+strings.Join(t.ops, ","), "hyp=1")
 			// hyp: the geometry and the fresh volume meet the hypotheses of the tree theorems (TGeomOk,
-			// 64 <= bytes per cluster, TInv and TFit of the initial state), evaluated by the Lean driver
+			// 64 <= bytes per cluster, TInv and TFit of the initial state) and of the re-opening theorems
+			// (ImgParamsOk, NameOk of every name, OpOk of every call), evaluated by the Lean driver;
+			// dimg: after every call the bytes of every directory (root first, then listing order; time
+			// stamps masked) against the model's `image`
 			c.Impl(id, "res="+strings.Join(t.res, ","), "used="+strings.Join(t.used, ","), "steps="+strings.Join(t.steps, ","),
-				"final="+final, "table="+tableNonzero(tb), "hyp=111")
+				"final="+final, "table="+tableNonzero(tb), "dimg="+strings.Join(t.dimg, ","), "nsp="+strings.Join(t.nsp, ","), "hyp=1111")
 			c.Stat("corr.tree." + kind)
 			for _, cls := range t.res {
 				c.Stat("corr.tree.res." + cls)
